@@ -101,7 +101,7 @@ package mq
 //@ func (*buffer).getAny
 //@   inline
 //@   loop 0:
-//@     invariant 0 <= b.i
+//@     invariant 0 <= b.i && b.i <= len(b.data)
 //@     decreases len(b.data) - b.i
 
 //@ func (*fixedHeader).ReadRemaining
@@ -138,27 +138,22 @@ package mq
 //@ func (*Subscribe).UnmarshalBinary
 //@   assigns $heap
 //@   loop 0:
-//@     invariant 0 <= b.i && b.data == data
-//@     decreases len(data) - b.i
+//@     invariant 0 <= b.i && b.i <= len(data) && b.data == data
+//@     decreases b.err == nil ? 1 + len(data) - b.i : 0
 //@ func (*SubAck).UnmarshalBinary
-//@   -- decoding is specified for receivers as ReadPacket creates them (empty
-//@   -- strings): an empty string in the frame keeps the old field value and
-//@   -- the cursor then advances by the width of that stale value
-//@   requires len(p.reasonString) == 0
 //@   assigns $heap
 //@   loop 0:
-//@     invariant 0 <= b.i && -1 <= rangeindex && len(p.reasonString) <= 65535
+//@     invariant 0 <= b.i && b.i <= len(b.data) && -1 <= rangeindex
 //@     decreases len(p.reasonCodes) - rangeindex
 //@ func (*Unsubscribe).UnmarshalBinary
 //@   assigns $heap
 //@   loop 0:
-//@     invariant 0 <= b.i && b.data == data
-//@     decreases len(data) - b.i
+//@     invariant 0 <= b.i && b.i <= len(data) && b.data == data
+//@     decreases b.err == nil ? 1 + len(data) - b.i : 0
 //@ func (*UnsubAck).UnmarshalBinary
-//@   requires len(p.reasonString) == 0
 //@   assigns $heap
 //@   loop 0:
-//@     invariant 0 <= b.i && -1 <= rangeindex && len(p.reasonString) <= 65535
+//@     invariant 0 <= b.i && b.i <= len(b.data) && -1 <= rangeindex
 //@     decreases len(p.reasonCodes) - rangeindex
 //@ func (*PingReq).UnmarshalBinary
 //@   assigns $heap
